@@ -2950,6 +2950,10 @@ func (te *TemplateEngine) createImageParagraph(imageData *TemplateImageData, doc
 			Position:  ImagePositionInline,
 			Alignment: AlignCenter,
 		}
+	} else {
+		// 使用配置的副本：下面会把替代文字和标题写入配置，不能修改调用方的模板数据
+		configCopy := *config
+		config = &configCopy
 	}
 
 	// 添加图片到文档
